@@ -1112,7 +1112,10 @@ pub(crate) fn eval_query(ctx: &Context, expr: &Query) -> Result<QueryReply, Quer
                 .collect::<BTreeMap<_, _>>();
             let results = commands::factorize(&val, &quantities);
             let mut results = results.into_sorted_vec();
-            results.dedup();
+            // `Factors` are only ordered by their score, so equal
+            // factorizations are not necessarily adjacent after sorting.
+            let mut seen = std::collections::BTreeSet::new();
+            results.retain(|commands::Factors(_score, names)| seen.insert(names.clone()));
             let results = results
                 .into_iter()
                 .map(|commands::Factors(_score, names)| {
